@@ -11,6 +11,27 @@ T = TypeVar("T")
 Result = dict[BB, T]
 
 
+class Worklist:
+    """Set of basic blocks that remembers insertion order.
+
+    Popping blocks in a fixed order makes the fixpoint iteration, and with it the
+    witnesses recorded in the analysis results (e.g. which use of a variable is
+    reported), independent of the memory layout of the interpreter.
+    """
+
+    def __init__(self, bbs: Iterable[BB]) -> None:
+        self._bbs = dict.fromkeys(bbs)
+
+    def __len__(self) -> int:
+        return len(self._bbs)
+
+    def pop(self) -> BB:
+        return self._bbs.popitem()[0]
+
+    def update(self, bbs: Iterable[BB]) -> None:
+        self._bbs.update(dict.fromkeys(bbs))
+
+
 class Analysis(Generic[T], ABC):
     """Abstract base class for a program analysis pass over the lattice `T`"""
 
@@ -55,7 +76,7 @@ class ForwardAnalysis(Generic[T], Analysis[T], ABC):
             bbs = [bb for bb in bbs if bb.reachable]
         vals_before = {bb: self.initial() for bb in bbs}  # return value
         vals_after = {bb: self.apply_bb(vals_before[bb], bb) for bb in bbs}  # cache
-        queue = set(bbs)
+        queue = Worklist(bbs)
         while len(queue) > 0:
             bb = queue.pop()
             preds = (
@@ -86,7 +107,7 @@ class BackwardAnalysis(Generic[T], Analysis[T], ABC):
         Returns a mapping from basic blocks to lattice values at the start of each BB.
         """
         vals_before = {bb: self.initial() for bb in bbs}
-        queue = set(bbs)
+        queue = Worklist(bbs)
         while len(queue) > 0:
             bb = queue.pop()
             succs = (
